@@ -81,8 +81,9 @@ M = [
  # ---------------- C20
  ("C20-peers-held-across-sync-request", C + "io/network.rs",
   "        // release the peers lock before taking configs and blockchain (lock order : configs -> blockchain -> peers)\n        drop(peers);\n", ""),
- ("C20-wallet-then-mempool", C + "consensus/mempool.rs",
-  "        let mempool_work = self\n            .can_bundle_block(blockchain, current_timestamp, &gt_tx, configs, &public_key)\n            .await?;", "        let mempool_work = self\n            .can_bundle_block(blockchain, current_timestamp, &gt_tx, configs, &public_key)\n            .await?;\n        let _wallet_guard = self.wallet_lock.read().await;"),
+ ("C20-configs-under-peers", C + "routing_thread.rs",
+  "            let peers = self.network.peer_lock.read().await;\n            let peer = peers.find_peer_by_index(peer_index);\n            if peer.is_none() || peer.unwrap().public_key.is_none() {",
+  "            let peers = self.network.peer_lock.read().await;\n            let _configs = self.network.config_lock.read().await;\n            let peer = peers.find_peer_by_index(peer_index);\n            if peer.is_none() || peer.unwrap().public_key.is_none() {"),
  ("C20-eq-drop-order-swapped", C + "io/network.rs",
   "        drop(blockchain);\n        drop(configs);", "        drop(configs);\n        drop(blockchain);"),
 ]
